@@ -72,6 +72,13 @@ def natural_tlv(rng):
     if c == 7:
         return 0x30, rng.choice([b"ns1", b"/var/run/netns/blue", b""])
     if c == 8:
+        if rng.random() < 0.5:
+            # long text values with multi-byte characters at every alignment around the offsets a
+            # "shorten for display" helper would cut at (16, 32, 64, 128, 256)
+            ch = rng.choice(["\u00e9", "\u20ac", "\U0001f600"]).encode("utf-8")
+            cut = rng.choice([16, 32, 64, 128, 256])
+            lead = b"a" * (cut - rng.randrange(1, len(ch) + 1) + rng.choice([0, 0, 1]))
+            return rng.choice([0x02, 0x05, 0x22, 0xE0]), lead + ch * rng.choice([1, 3, 20]) + b"tail" * rng.choice([0, 1, 5])
         return rng.choice([0xE0, 0xEA, 0xEE, 0xEF, 0xF0, 0xF7, 0xF8, 0xFF]), rand_bytes(rng, rng.choice([0, 4, 9]))
     return rng.choice([0x06, 0x1F, 0x26, 0x2F, 0x31, 0x00]), rand_bytes(rng, rng.choice([0, 4, 128, 129]))
 
